@@ -1,24 +1,45 @@
 (* P_C09.v — invariants of the server state machine over every history. *)
 From Via Require Import M_Char M_Encode M_Parse M_Receive M_Server.
+From Coq Require Import Lia.
 Local Open Scope N_scope.
 
-Definition conn_ok (c : conn) : Prop :=
+(* the bytes a list of buffer slots denotes, as a function of the three places they point into *)
+Definition tx_bytes (hdr body : str) (keep : list str) (l : list slot) : str :=
+  concat (map (fun s => match s with SHeader => hdr | SBody => body | SCrlf => [13; 10] | SApp k => nth k keep [] end) l).
+Definition slots_in (n : nat) (l : list slot) : Prop :=
+  Forall (fun s => match s with SApp k => (k < n)%nat | _ => True end) l.
+
+Lemma slots_bytes_tx c l : slots_bytes c l = tx_bytes (c_tx_header c) (c_tx_body c) (c_keep c) l.
+Proof. reflexivity. Qed.
+
+(* what a connection handed to send_data must satisfy (its transmit buffers may just have been rewritten) *)
+Definition conn_ok0 (c : conn) : Prop :=
   (c_write c <> None -> c_transmitting c = true) /\
   (c_in_http c = true -> c_in_comms c = true /\ c_connected c = true).
 
+Definition conn_ok (c : conn) : Prop :=
+  (c_write c <> None -> c_transmitting c = true) /\
+  (c_in_http c = true -> c_in_comms c = true /\ c_connected c = true) /\
+  (* the buffers a pending write points into still hold the bytes that were issued *)
+  (forall slots snap, c_write c = Some (slots, snap) -> tx_bytes (c_tx_header c) (c_tx_body c) (c_keep c) slots = snap) /\
+  (forall slots snap, c_write c = Some (slots, snap) -> slots_in (length (c_keep c)) slots).
+
 Definition all_ok (w : world) : Prop := Forall conn_ok (w_conns w).
 
-Definition is_trunc (l : logitem) : bool := match l with LTruncated _ => true | _ => false end.
-Definition In_truncated (l : list logitem) : Prop := existsb is_trunc l = true.
-Definition no_trunc (l : list logitem) : Prop := existsb is_trunc l = false.
+(* the two things that must never be logged: a socket shut down under a pending write, a completed write whose
+   buffers no longer hold the bytes that were issued *)
+Definition is_bad (l : logitem) : bool := match l with LTruncated _ | LStale _ => true | _ => false end.
+Definition is_truncated (l : logitem) : bool := match l with LTruncated _ => true | _ => false end.
+Definition In_truncated (l : list logitem) : Prop := existsb is_truncated l = true.
+Definition no_bad (l : list logitem) : Prop := existsb is_bad l = false.
 
-Lemma no_trunc_app a b : no_trunc a -> no_trunc b -> no_trunc (a ++ b).
-Proof. unfold no_trunc. intros Ha Hb. rewrite existsb_app, Ha, Hb. reflexivity. Qed.
+Lemma no_bad_app a b : no_bad a -> no_bad b -> no_bad (a ++ b).
+Proof. unfold no_bad. intros Ha Hb. rewrite existsb_app, Ha, Hb. reflexivity. Qed.
 
-Lemma no_trunc_cons x l : is_trunc x = false -> no_trunc l -> no_trunc (x :: l).
-Proof. unfold no_trunc. cbn. intros -> ->. reflexivity. Qed.
+Lemma no_bad_cons x l : is_bad x = false -> no_bad l -> no_bad (x :: l).
+Proof. unfold no_bad. cbn. intros -> ->. reflexivity. Qed.
 
-Lemma no_trunc_nil : no_trunc [].
+Lemma no_bad_nil : no_bad [].
 Proof. reflexivity. Qed.
 
 Lemma find_ok id l c : Forall conn_ok l -> find_conn id l = Some c -> conn_ok c.
@@ -69,13 +90,31 @@ Proof. intros H; exact H. Qed.
 Lemma set_undefined_ok w : all_ok w -> all_ok (set_undefined w).
 Proof. intros H; exact H. Qed.
 
-Ltac ok_tac := unfold conn_ok in *; cbn in *; intuition (try discriminate; try congruence).
+Ltac ok_tac := unfold conn_ok, conn_ok0 in *; cbn in *; intuition (try discriminate; try congruence; eauto).
+
+Lemma str_eqb_same a : str_eqb a a = true.
+Proof. induction a as [|x a IH]; cbn; [reflexivity|]. rewrite N.eqb_refl, IH. reflexivity. Qed.
+
+Lemma conn_ok_0 c : conn_ok c -> conn_ok0 c.
+Proof. intros (A & B & _). split; assumption. Qed.
+
+Lemma slots_in_mono n m l : (n <= m)%nat -> slots_in n l -> slots_in m l.
+Proof.
+  intros Hnm H. unfold slots_in in *. induction H as [|s t Hs Ht IH]; constructor; [|exact IH].
+  destruct s; try exact I. eapply Nat.lt_le_trans; eassumption.
+Qed.
+
+Lemma tx_bytes_keep_app h b keep x l : slots_in (length keep) l -> tx_bytes h b (keep ++ [x]) l = tx_bytes h b keep l.
+Proof.
+  intros H. unfold tx_bytes. f_equal. induction H as [|s t Hs Ht IH]; [reflexivity|]. cbn [map]. rewrite IH. f_equal.
+  destruct s; try reflexivity. apply app_nth1. exact Hs.
+Qed.
 
 Lemma cancel_pending_ok c b : conn_ok c -> conn_ok (fst (cancel_pending c b)).
 Proof. intros H. unfold cancel_pending. cbn [fst]. destruct b; ok_tac. Qed.
 
 Lemma sock_close_ok w c : all_ok w -> conn_ok c ->
-  all_ok (fst (sock_close w c)) /\ no_trunc (snd (sock_close w c)).
+  all_ok (fst (sock_close w c)) /\ no_bad (snd (sock_close w c)).
 Proof.
   intros Hw Hc. unfold sock_close. destruct (c_closed c) eqn:Ecl; [split; [exact Hw|reflexivity]|].
   cbn [fst snd]. split; [|reflexivity]. apply add_aborted_ok, upd_ok; [exact Hw|].
@@ -83,14 +122,14 @@ Proof.
 Qed.
 
 Lemma drop_http_ok w c : all_ok w -> conn_ok c ->
-  all_ok (fst (drop_http w c)) /\ no_trunc (snd (drop_http w c)).
+  all_ok (fst (drop_http w c)) /\ no_bad (snd (drop_http w c)).
 Proof.
   intros Hw Hc. unfold drop_http.
   apply sock_close_ok; [apply upd_ok; [exact Hw|]|]; destruct c; ok_tac.
 Qed.
 
 Lemma drop_comms_ok w c : all_ok w -> conn_ok c ->
-  all_ok (fst (drop_comms w c)) /\ no_trunc (snd (drop_comms w c)).
+  all_ok (fst (drop_comms w c)) /\ no_bad (snd (drop_comms w c)).
 Proof.
   intros Hw Hc. unfold drop_comms. set (c1 := mk_conn _ _ _ _ _ _ _ _ _ _ false false _ _ _ _ _ _ _).
   unfold sock_close. destruct (c_closed c1) eqn:Ecl.
@@ -98,10 +137,10 @@ Proof.
   - cbn [fst snd]. split; [|reflexivity]. apply add_aborted_ok, upd_upd_ok; [exact Hw| |reflexivity]. unfold c1 in *; destruct c; ok_tac.
 Qed.
 
-Definition good (r : world * list logitem) : Prop := all_ok (fst r) /\ no_trunc (snd r).
+Definition good (r : world * list logitem) : Prop := all_ok (fst r) /\ no_bad (snd r).
 
-Lemma good_app (w2 : world) l1 l2 : no_trunc l1 -> good (w2, l2) -> good (w2, l1 ++ l2).
-Proof. intros H1 [H2 H3]. split; [exact H2|apply no_trunc_app; assumption]. Qed.
+Lemma good_app (w2 : world) l1 l2 : no_bad l1 -> good (w2, l2) -> good (w2, l1 ++ l2).
+Proof. intros H1 [H2 H3]. split; [exact H2|apply no_bad_app; assumption]. Qed.
 
 Lemma close_all_ok f : (forall w c, all_ok w -> conn_ok c -> find_conn (c_id c) (w_conns w) = Some c -> good (f w c)) ->
   forall ids w, all_ok w -> good (close_all w ids f).
@@ -119,9 +158,9 @@ Qed.
 Lemma kill_ok c : conn_ok (kill c).
 Proof. unfold kill. ok_tac. Qed.
 
-Lemma no_trunc_all l : (forall x, In x l -> is_trunc x = false) -> no_trunc l.
+Lemma no_bad_all l : (forall x, In x l -> is_bad x = false) -> no_bad l.
 Proof.
-  unfold no_trunc. induction l as [|x t IH]; intros H; cbn; [reflexivity|].
+  unfold no_bad. induction l as [|x t IH]; intros H; cbn; [reflexivity|].
   rewrite (H x (or_introl eq_refl)). apply IH. intros y Hy. apply H. right; exact Hy.
 Qed.
 
@@ -130,9 +169,9 @@ Proof.
   intros Hw. unfold server_close_except. split; cbn [fst snd].
   - unfold all_ok. cbn [w_conns]. apply Forall_map. eapply Forall_impl; [|exact Hw].
     intros c Hc. destruct ((c_in_comms c || c_in_http c) && negb _); [apply kill_ok|exact Hc].
-  - apply no_trunc_app.
-    + apply no_trunc_all. intros x Hx. apply in_map_iff in Hx. destruct Hx as [i [<- _]]. reflexivity.
-    + apply no_trunc_all. intros x Hx. apply in_concat in Hx. destruct Hx as [l [Hl Hx]].
+  - apply no_bad_app.
+    + apply no_bad_all. intros x Hx. apply in_map_iff in Hx. destruct Hx as [i [<- _]]. reflexivity.
+    + apply no_bad_all. intros x Hx. apply in_concat in Hx. destruct Hx as [l [Hl Hx]].
       apply in_map_iff in Hl. destruct Hl as [c [<- _]]. unfold close_log in Hx.
       destruct (c_closed c); [destruct Hx|destruct Hx as [<-|[]]; reflexivity].
 Qed.
@@ -159,14 +198,14 @@ Proof.
     destruct (find_conn id (w_conns w'')) as [c2|] eqn:Ef2.
     - pose proof (sock_close_ok w'' c2 Gs1 (find_ok _ _ _ Gs1 Ef2)) as [H1 H2].
       destruct (sock_close w'' c2) as [w3 l3]. cbn [fst snd] in *. split; cbn [fst snd]; [exact H1|].
-      apply no_trunc_cons; [reflexivity|apply no_trunc_app; assumption].
-    - split; cbn [fst snd]; [exact Gs1|apply no_trunc_cons; [reflexivity|exact Gs2]]. }
+      apply no_bad_cons; [reflexivity|apply no_bad_app; assumption].
+    - split; cbn [fst snd]; [exact Gs1|apply no_bad_cons; [reflexivity|exact Gs2]]. }
   match goal with |- good (let '(w1, l1) := ?X in _) => destruct X as [w1 l1] end.
   destruct G as [G1 G2]. cbn [fst snd] in G1, G2.
   destruct (find_conn id (w_conns w1)) as [c1|] eqn:Ef1; [|split; assumption].
   destruct (c_in_comms c1); [|split; assumption].
   pose proof (drop_comms_ok w1 c1 G1 (find_ok _ _ _ G1 Ef1)) as [H1 H2].
-  destruct (drop_comms w1 c1) as [w2 l2]. split; cbn [fst snd] in *; [exact H1|apply no_trunc_app; assumption].
+  destruct (drop_comms w1 c1) as [w2 l2]. split; cbn [fst snd] in *; [exact H1|apply no_bad_app; assumption].
 Qed.
 
 Lemma comms_shutdown_ok o w id : all_ok w ->
@@ -185,7 +224,7 @@ Proof.
     assert (Ew : c_write c1 = None) by (unfold c1; cbn; exact Hwr). rewrite Ew. cbn [app].
     pose proof (disconnected_ok (upd w c1) id (upd_ok _ _ Hw Hc1)) as [H1 H2].
     destruct (disconnected (upd w c1) id) as [w1 l1]. split; cbn [fst snd] in *; [exact H1|].
-    apply no_trunc_cons; [reflexivity|exact H2].
+    apply no_bad_cons; [reflexivity|exact H2].
 Qed.
 
 Lemma comms_disconnect_ok o w id : all_ok w -> good (comms_disconnect o w id).
@@ -212,37 +251,55 @@ Proof.
 Qed.
 
 (* triples (world, log, result) *)
-Definition good3 {A} (r : world * list logitem * A) : Prop := all_ok (fst (fst r)) /\ no_trunc (snd (fst r)).
+Definition good3 {A} (r : world * list logitem * A) : Prop := all_ok (fst (fst r)) /\ no_bad (snd (fst r)).
 
-Lemma send_data_ok w c slots : all_ok w -> conn_ok c -> good3 (send_data w c slots).
+Lemma send_data_ok w c slots : all_ok w -> conn_ok0 c -> slots_in (length (c_keep c)) slots -> good3 (send_data w c slots).
 Proof.
-  intros Hw Hc. unfold send_data. destruct (c_transmitting c) eqn:Et.
-  - split; cbn; [apply set_undefined_ok, upd_ok; assumption|reflexivity].
-  - destruct (c_connected c); split; cbn [fst snd]; try reflexivity; apply upd_ok; try assumption.
-    destruct c; ok_tac.
+  intros Hw Hc Hs. unfold send_data. destruct (c_transmitting c) eqn:Et.
+  - split; cbn; [apply set_undefined_ok; assumption|reflexivity].
+  - assert (Hn : c_write c = None) by (destruct Hc as [A _]; destruct (c_write c); [rewrite A in Et by discriminate; discriminate | reflexivity]).
+    destruct (c_connected c); split; cbn [fst snd]; try reflexivity; apply upd_ok; try assumption.
+    + destruct c; unfold conn_ok, conn_ok0 in *; cbn in *. destruct Hc as [A B].
+      split; [intros _; reflexivity | split; [intros E; destruct (B E); split; [assumption | reflexivity] | split; intros s0 sn E; inversion E; subst; [reflexivity | exact Hs]]].
+    + destruct c; unfold conn_ok, conn_ok0 in *; cbn in *. destruct Hc as [A B]. subst c_write.
+      split; [exact A | split; [exact B | split; intros s0 sn E; discriminate E]].
 Qed.
 
-Lemma set_tx_ok c rx h b k : conn_ok c -> conn_ok (set_tx c rx h b k).
+Lemma set_tx_ok c rx h b k : conn_ok0 c -> conn_ok0 (set_tx c rx h b k).
 Proof. intros H. destruct c; ok_tac. Qed.
 
-Lemma http_send_ok o w c slots ic : all_ok w -> conn_ok c -> good3 (http_send o w c slots ic).
+(* the receiver may be replaced, the transmit buffers kept: nothing a pending write points into changes *)
+Lemma set_rx_ok c rx : conn_ok c -> conn_ok (set_tx c rx (c_tx_header c) (c_tx_body c) (c_keep c)).
+Proof. intros H. destruct c; ok_tac. Qed.
+
+Lemma set_keep_ok c rx x : conn_ok c -> conn_ok (set_tx c rx (c_tx_header c) (c_tx_body c) (c_keep c ++ [x])).
 Proof.
-  intros Hw Hc. unfold http_send.
+  intros (A & B & C & D). destruct c; unfold conn_ok in *; cbn in *.
+  split; [exact A | split; [exact B | split; intros s0 sn E]].
+  - rewrite tx_bytes_keep_app; [exact (C _ _ E) | exact (D _ _ E)].
+  - eapply slots_in_mono; [|exact (D _ _ E)]. rewrite app_length. apply Nat.le_add_r.
+Qed.
+
+Lemma http_send_ok o w c slots ic : all_ok w -> conn_ok0 c -> slots_in (length (c_keep c)) slots -> good3 (http_send o w c slots ic).
+Proof.
+  intros Hw Hc Hs. unfold http_send.
   set (c1 := set_tx c _ _ _ _).
-  pose proof (send_data_ok w c1 slots Hw (set_tx_ok _ _ _ _ _ Hc)) as [H1 H2].
+  pose proof (send_data_ok w c1 slots Hw (set_tx_ok _ _ _ _ _ Hc) Hs) as [H1 H2].
   destruct (send_data w c1 slots) as [[w1 l1] r1]. cbn [fst snd] in H1, H2.
   destruct (rq_keep_alive _ || ic); [split; assumption|].
   pose proof (comms_disconnect_ok o w1 (c_id c) H1) as [H3 H4].
-  destruct (comms_disconnect o w1 (c_id c)) as [w2 l2]. split; cbn [fst snd] in *; [exact H3|apply no_trunc_app; assumption].
+  destruct (comms_disconnect o w1 (c_id c)) as [w2 l2]. split; cbn [fst snd] in *; [exact H3|apply no_bad_app; assumption].
 Qed.
 
+Ltac slots_tac := unfold slots_in; repeat constructor; cbn; rewrite ?app_length; cbn; lia.
+
 Lemma http_send_response_ok o w c : all_ok w -> conn_ok c -> good3 (http_send_response o w c).
-Proof. intros Hw Hc. unfold http_send_response. apply http_send_ok; [exact Hw|apply set_tx_ok, Hc]. Qed.
+Proof. intros Hw Hc. unfold http_send_response. apply http_send_ok; [exact Hw | apply set_tx_ok, conn_ok_0, Hc | slots_tac]. Qed.
 
 Definition good2 (r : world * list logitem) : Prop := good r.
 
-Lemma good3_add {A} (w : world) (l1 l2 : list logitem) (r : A) : no_trunc l2 -> good3 (w, l1, r) -> good (w, l1 ++ l2).
-Proof. intros H2 [H H1]. split; [exact H|apply no_trunc_app; assumption]. Qed.
+Lemma good3_add {A} (w : world) (l1 l2 : list logitem) (r : A) : no_bad l2 -> good3 (w, l1, r) -> good (w, l1 ++ l2).
+Proof. intros H2 [H H1]. split; [exact H|apply no_bad_app; assumption]. Qed.
 
 Lemma find_upd_ok w c id c' : all_ok (upd w c) -> find_conn id (w_conns (upd w c)) = Some c' -> conn_ok c'.
 Proof. intros H Hf. eapply find_ok; eassumption. Qed.
@@ -254,21 +311,21 @@ Proof.
   match goal with |- good (let (_, _) := ?X in _) => assert (G : good3 X) end.
   { destruct (rp_ov rp) as [|p].
     - destruct (negb (tx_response_is_valid resp0)); [split; [exact Hw|reflexivity]|].
-      apply http_send_ok; [exact Hw|apply set_tx_ok, Hc].
+      apply http_send_ok; [exact Hw | apply set_tx_ok, conn_ok_0, Hc | slots_tac].
     - destruct p as [p|p|]; try destruct p as [p|p|]; try (apply http_send_response_ok; assumption).
       + (* 3 *)
         destruct (negb (tx_response_is_valid _)); [split; [exact Hw|reflexivity]|].
-        match goal with |- good3 (let (_, _) := ?Y in _) => pose proof (http_send_ok o w (set_tx c (c_rx c) (response_message (with_version c (add_header resp0 hf_HEADER_TRANSFER_ENCODING hf_CHUNKED)) 0) (c_tx_body c) (c_keep c)) [SHeader] (rp_status rp =? code_CONTINUE) Hw (set_tx_ok _ _ _ _ _ Hc)) as [H1 H2] end.
+        match goal with |- good3 (let (_, _) := ?Y in _) => pose proof (http_send_ok o w (set_tx c (c_rx c) (response_message (with_version c (add_header resp0 hf_HEADER_TRANSFER_ENCODING hf_CHUNKED)) 0) (c_tx_body c) (c_keep c)) [SHeader] (rp_status rp =? code_CONTINUE) Hw (set_tx_ok _ _ _ _ _ (conn_ok_0 _ Hc)) ltac:(slots_tac)) as [H1 H2] end.
         destruct (http_send o w _ [SHeader] _) as [[w' l'] ok']. cbn [fst snd] in H1, H2.
         destruct (find_conn (c_id c) (w_conns w')) as [c'|] eqn:Ef; split; cbn [fst snd]; try assumption.
         apply upd_ok; [exact H1|]. pose proof (find_ok _ _ _ H1 Ef) as Hc'. destruct c'; ok_tac.
       + (* 2 *)
         destruct (negb (tx_response_is_valid resp0)).
-        * split; cbn [fst snd]; [apply upd_ok; [exact Hw|apply set_tx_ok, Hc]|reflexivity].
-        * destruct (rv_is_head (c_rx c) || _); apply http_send_ok; try exact Hw; apply set_tx_ok, Hc.
+        * split; cbn [fst snd]; [apply upd_ok; [exact Hw|apply set_keep_ok, Hc]|reflexivity].
+        * destruct (rv_is_head (c_rx c) || _); apply http_send_ok; try exact Hw; try (apply set_tx_ok, conn_ok_0, Hc); slots_tac.
       + (* 1 *)
         destruct (negb (tx_response_is_valid resp0)); [split; [exact Hw|reflexivity]|].
-        destruct (rv_is_head (c_rx c) || _); apply http_send_ok; try exact Hw; apply set_tx_ok, Hc. }
+        destruct (rv_is_head (c_rx c) || _); apply http_send_ok; try exact Hw; try (apply set_tx_ok, conn_ok_0, Hc); slots_tac. }
   match goal with |- good (let (_, _) := ?X in _) => destruct X as [[w1 l1] ok] end.
   eapply good3_add; [reflexivity|exact G].
 Qed.
@@ -279,11 +336,11 @@ Proof.
   pose proof (find_ok _ _ _ Hw Ef) as Hc.
   destruct (negb (Nat.eqb (c_chunks_left c) 0)).
   - match goal with |- good (let (_, _) := send_data w ?C ?S in _) =>
-      pose proof (send_data_ok w C S Hw ltac:(destruct c; ok_tac)) as G; destruct (send_data w C S) as [[w1 l1] ok] end.
+      pose proof (send_data_ok w C S Hw ltac:(destruct c; ok_tac) ltac:(slots_tac)) as G; destruct (send_data w C S) as [[w1 l1] ok] end.
     eapply good3_add; [reflexivity|exact G].
   - destruct (c_last_due c); [|split; [exact Hw|reflexivity]].
     match goal with |- good (let (_, _) := send_data w ?C ?S in _) =>
-      pose proof (send_data_ok w C S Hw ltac:(destruct c; ok_tac)) as G; destruct (send_data w C S) as [[w1 l1] ok] end.
+      pose proof (send_data_ok w C S Hw ltac:(destruct c; ok_tac) ltac:(slots_tac)) as G; destruct (send_data w C S) as [[w1 l1] ok] end.
     eapply good3_add; [reflexivity|exact G].
 Qed.
 
@@ -307,14 +364,14 @@ Section LoopOk.
     - split; cbn [fst snd]; [apply upd_ok; [exact Hw0|apply push_pending_ok, Hc]|reflexivity].
     - destruct (o_app o =? 0).
       + pose proof (app_respond_ok o w0 c (recipe_of (rl_uri (rq_line (rv_req (c_rx c))))) Hw0 Hc) as [H1 H2].
-        destruct (app_respond o w0 c _) as [w1 l1]. split; cbn [fst snd] in *; [exact H1|apply no_trunc_cons; [reflexivity|exact H2]].
+        destruct (app_respond o w0 c _) as [w1 l1]. split; cbn [fst snd] in *; [exact H1|apply no_bad_cons; [reflexivity|exact H2]].
       + split; cbn [fst snd]; [apply upd_ok; [exact Hw0|apply push_pending_ok, Hc]|reflexivity].
   Qed.
 
   Lemma clear_rx_if_ok w id f : all_ok w -> all_ok (clear_rx_if w id f).
   Proof.
     intros Hw. unfold clear_rx_if. destruct (find_conn id (w_conns w)) as [c|] eqn:Ef; [|exact Hw].
-    destruct (f c); [|exact Hw]. apply upd_ok; [exact Hw|]. pose proof (find_ok _ _ _ Hw Ef). unfold set_rx. apply set_tx_ok. assumption.
+    destruct (f c); [|exact Hw]. apply upd_ok; [exact Hw|]. pose proof (find_ok _ _ _ Hw Ef). unfold set_rx. apply set_rx_ok. assumption.
   Qed.
 
   (* the default / handler treatment of an invalid request *)
@@ -333,10 +390,10 @@ Section LoopOk.
     destruct (o_inv o).
     - pose proof (comms_disconnect_ok o w1 id H1) as [H3 H4]. destruct (comms_disconnect o w1 id) as [w2 l2].
       split; cbn [fst snd] in *; [apply clear_rx_if_ok, H3|].
-      apply no_trunc_cons; [reflexivity|]. apply no_trunc_app; [exact H2|]. apply no_trunc_cons; [reflexivity|exact H4].
+      apply no_bad_cons; [reflexivity|]. apply no_bad_app; [exact H2|]. apply no_bad_cons; [reflexivity|exact H4].
     - destruct (o_autod o).
       + pose proof (comms_disconnect_ok o w1 id H1) as [H3 H4]. destruct (comms_disconnect o w1 id) as [w2 l2].
-        split; cbn [fst snd] in *; [apply clear_rx_if_ok, H3|apply no_trunc_app; assumption].
+        split; cbn [fst snd] in *; [apply clear_rx_if_ok, H3|apply no_bad_app; assumption].
       + split; cbn [fst snd]; [apply clear_rx_if_ok, H1|rewrite app_nil_r; exact H2].
   Qed.
 
@@ -349,10 +406,10 @@ Section LoopOk.
     - (* EXPECT_CONTINUE *)
       destruct (o_cont o).
       + destruct (is_prefix _ _).
-        * match goal with |- good (let (_, _) := ?X in _) => assert (G : good3 X) by (apply http_send_ok; [exact Hw|apply set_tx_ok, Hc]); destruct X as [[w1 l1] ok] end.
-          destruct G as [G1 G2]. split; cbn [fst snd] in *; [exact G1|]. apply no_trunc_cons; [reflexivity|apply no_trunc_app; [exact G2|reflexivity]].
+        * match goal with |- good (let (_, _) := ?X in _) => assert (G : good3 X) by (apply http_send_ok; [exact Hw | apply set_tx_ok, conn_ok_0, Hc | slots_tac]); destruct X as [[w1 l1] ok] end.
+          destruct G as [G1 G2]. split; cbn [fst snd] in *; [exact G1|]. apply no_bad_cons; [reflexivity|apply no_bad_app; [exact G2|reflexivity]].
         * pose proof (http_send_response_ok o w c Hw Hc) as [G1 G2]. destruct (http_send_response o w c) as [[w1 l1] ok].
-          split; cbn [fst snd] in *; [exact G1|]. apply no_trunc_cons; [reflexivity|apply no_trunc_app; [exact G2|reflexivity]].
+          split; cbn [fst snd] in *; [exact G1|]. apply no_bad_cons; [reflexivity|apply no_bad_app; [exact G2|reflexivity]].
       + pose proof (http_send_response_ok o w c Hw Hc) as [G1 G2]. destruct (http_send_response o w c) as [[w1 l1] ok].
         split; cbn [fst snd] in *; assumption.
     - (* VALID *)
@@ -368,7 +425,7 @@ Section LoopOk.
         match goal with |- good (let (_, _) := app_respond o (upd w ?C) ?C rp in _) =>
           assert (HC : conn_ok C) by (destruct c; ok_tac);
           pose proof (app_respond_ok o (upd w C) C rp (upd_ok _ _ Hw HC) HC) as [G1 G2]; destruct (app_respond o (upd w C) C rp) as [w' l'] end.
-        split; cbn [fst snd] in *; [exact G1|apply no_trunc_cons; [reflexivity|exact G2]]. }
+        split; cbn [fst snd] in *; [exact G1|apply no_bad_cons; [reflexivity|exact G2]]. }
       match goal with |- good (let (_, _) := ?X in _) => destruct X as [w1 l1] end.
       destruct G as [G1 G2]. split; cbn [fst snd] in *; [apply clear_rx_if_ok, G1|exact G2].
   Qed.
@@ -381,13 +438,13 @@ Section LoopOk.
     pose proof (find_ok _ _ _ Hw Ef) as Hc.
     destruct (negb (c_in_http c)); [split; [apply set_undefined_ok, Hw|reflexivity]|].
     destruct (receive (o_cfg o) (c_rx c) (b :: t)) as [[rx1 rest] r].
-    assert (Hw1 : all_ok (upd w (set_rx c rx1))) by (apply upd_ok; [exact Hw|apply set_tx_ok, Hc]).
+    assert (Hw1 : all_ok (upd w (set_rx c rx1))) by (apply upd_ok; [exact Hw|apply set_rx_ok, Hc]).
     pose proof (server_dispatch_ok (upd w (set_rx c rx1)) id r Hw1) as [G1 G2].
     destruct (server_dispatch recipe_of o (upd w (set_rx c rx1)) id r) as [w2 l2]. cbn [fst snd] in G1, G2.
     destruct (w_undefined w2); [split; assumption|].
     destruct r; try (split; assumption);
       (specialize (IH w2 id rest G1); destruct (server_loop recipe_of o fuel w2 id rest) as [w3 l3];
-       destruct IH as [I1 I2]; split; cbn [fst snd] in *; [exact I1|apply no_trunc_app; assumption]).
+       destruct IH as [I1 I2]; split; cbn [fst snd] in *; [exact I1|apply no_bad_app; assumption]).
   Qed.
 End LoopOk.
 
@@ -408,7 +465,7 @@ Section StepOk.
       assert (HC : conn_ok C) by (destruct c; ok_tac);
       pose proof (enable_reception_ok (upd w C) (c_id c) (upd_ok _ _ Hw HC)) as [G1 G2];
       destruct (enable_reception (upd w C) (c_id c)) as [w1 l1] end.
-    split; cbn [fst snd] in *; [exact G1|apply no_trunc_cons; [reflexivity|exact G2]].
+    split; cbn [fst snd] in *; [exact G1|apply no_bad_cons; [reflexivity|exact G2]].
   Qed.
 
   Lemma all_ok_snoc w c : all_ok w -> conn_ok c ->
@@ -428,7 +485,7 @@ Section StepOk.
       destruct (o_tls o).
       + split; cbn [fst snd]; [|reflexivity]. apply upd_ok; [exact Hw1|ok_tac].
       + pose proof (connected_ok_ok w1 c Hw1 Hc eq_refl) as [G1 G2]. destruct (connected_ok o w1 c) as [w2 l2].
-        split; cbn [fst snd] in *; [exact G1|apply no_trunc_cons; [reflexivity|exact G2]].
+        split; cbn [fst snd] in *; [exact G1|apply no_bad_cons; [reflexivity|exact G2]].
     - (* handshake *)
       destruct (find_conn id (w_conns w)) as [c|] eqn:Ef; [|split; [exact Hw|reflexivity]].
       pose proof (find_ok _ _ _ Hw Ef) as Hc.
@@ -442,7 +499,7 @@ Section StepOk.
          cbn [fst snd] in *;
          destruct (find_conn id (w_conns w1)) as [c1|] eqn:Ef1; [|split; assumption];
          pose proof (drop_comms_ok w1 c1 G1 (find_ok _ _ _ G1 Ef1)) as [G3 G4]; destruct (drop_comms w1 c1) as [w2 l2];
-         split; cbn [fst snd] in *; [exact G3|apply no_trunc_app; assumption]).
+         split; cbn [fst snd] in *; [exact G3|apply no_bad_app; assumption]).
     - (* read *)
       destruct (find_conn id (w_conns w)) as [c|] eqn:Ef; [|split; [exact Hw|reflexivity]].
       pose proof (find_ok _ _ _ Hw Ef) as Hc.
@@ -455,7 +512,7 @@ Section StepOk.
       destruct (find_conn id (w_conns w1)) as [c2|]; [|split; assumption].
       destruct (live c2 && negb (c_shutdown_sent c2) && negb (w_undefined w1)); [|split; assumption].
       pose proof (enable_reception_ok w1 id G1) as [G3 G4]. destruct (enable_reception w1 id) as [w2 l2].
-      split; cbn [fst snd] in *; [exact G3|apply no_trunc_app; assumption].
+      split; cbn [fst snd] in *; [exact G3|apply no_bad_app; assumption].
     - (* read error *)
       destruct (find_conn id (w_conns w)) as [c|] eqn:Ef; [|split; [exact Hw|reflexivity]].
       pose proof (find_ok _ _ _ Hw Ef) as Hc.
@@ -468,13 +525,14 @@ Section StepOk.
       destruct (c_write c) as [[slots snapshot]|] eqn:Ewr; [|split; [exact Hw|reflexivity]].
       destruct (live c); [|split; [exact Hw|reflexivity]].
       set (lw := if str_eqb _ snapshot then _ else _).
-      assert (Hlw : no_trunc lw) by (unfold lw; destruct (str_eqb _ snapshot); reflexivity).
+      assert (Hlw : no_bad lw).
+      { unfold lw. destruct Hc as (_ & _ & Hb & _). specialize (Hb _ _ Ewr). rewrite slots_bytes_tx, Hb, str_eqb_same. reflexivity. }
       match goal with |- context [upd w ?C] => set (c1 := C) end.
       assert (HC : conn_ok c1) by (unfold c1; destruct c; ok_tac).
       pose proof (upd_ok _ _ Hw HC) as Hw1.
       destruct (c_shutdown_sent c1).
       + pose proof (disconnected_ok (upd w c1) id Hw1) as [G1 G2]. destruct (disconnected (upd w c1) id) as [w2 l2].
-        split; cbn [fst snd] in *; [exact G1|apply no_trunc_app; assumption].
+        split; cbn [fst snd] in *; [exact G1|apply no_bad_app; assumption].
       + destruct (c_disc_pending c1).
         * assert (G : good (comms_shutdown o (upd w c1) id)).
           { apply comms_shutdown_ok; [exact Hw1|]. intros _ c' Hf.
@@ -483,13 +541,13 @@ Section StepOk.
               unfold upd, set_conns. cbn [w_conns]. apply find_put_same; [exact Ef|reflexivity]. }
             rewrite E in Hf. inversion Hf; subst c'. reflexivity. }
           destruct G as [G1 G2]. destruct (comms_shutdown o (upd w c1) id) as [w2 l2].
-          split; cbn [fst snd] in *; [exact G1|apply no_trunc_app; assumption].
+          split; cbn [fst snd] in *; [exact G1|apply no_bad_app; assumption].
         * match goal with |- context [upd (upd w c1) ?C] => set (c2 := C) end.
           assert (HC2 : conn_ok c2) by (unfold c2, c1; destruct c; ok_tac).
           destruct (c_in_http c2).
           -- pose proof (app_on_sent_ok o (upd (upd w c1) c2) id (upd_ok _ _ Hw1 HC2)) as [G1 G2].
              destruct (app_on_sent o (upd (upd w c1) c2) id) as [w2 l2].
-             split; cbn [fst snd] in *; [exact G1|]. apply no_trunc_app; [exact Hlw|apply no_trunc_cons; [reflexivity|exact G2]].
+             split; cbn [fst snd] in *; [exact G1|]. apply no_bad_app; [exact Hlw|apply no_bad_cons; [reflexivity|exact G2]].
           -- split; cbn [fst snd]; [apply upd_ok; assumption|exact Hlw].
     - (* write error *)
       destruct (find_conn id (w_conns w)) as [c|] eqn:Ef; [|split; [exact Hw|reflexivity]].
@@ -509,11 +567,12 @@ Section StepOk.
       match goal with |- context [upd w ?C] => assert (HC : conn_ok C) by (destruct c; ok_tac); pose proof (upd_ok _ _ Hw HC) as Hw1 end.
       destruct e; try (split; [exact Hw1|reflexivity]); apply disconnected_ok, Hw1.
     - (* aborted completions *)
-      split; cbn [fst snd]; [exact Hw|]. apply no_trunc_all. intros x Hx. apply in_map_iff in Hx. destruct Hx as [p [<- _]]. reflexivity.
+      split; cbn [fst snd]; [exact Hw|]. apply no_bad_all. intros x Hx. apply in_map_iff in Hx. destruct Hx as [p [<- _]]. reflexivity.
     - (* app respond *)
       destruct (find_conn id (w_conns w)) as [c|] eqn:Ef; [|split; [exact Hw|reflexivity]].
       pose proof (find_ok _ _ _ Hw Ef) as Hc.
-      destruct (c_pending c) as [|rp rest] eqn:Ep; [split; [exact Hw|reflexivity]|].
+      destruct (c_pending c) as [|rp rest] eqn:Ep;
+        [destruct (c_in_http c); [apply app_respond_ok; assumption | split; [exact Hw|reflexivity]]|].
       assert (HC : conn_ok (mk_conn (c_id c) (c_transmitting c) (c_connected c) (c_disc_pending c) (c_shutdown_sent c)
                                     (c_closed c) (c_read_pending c) (c_handshake_pending c) (c_tls_shutdown_pending c) (c_write c)
                                     (c_in_comms c) (c_in_http c) (c_rx c) (c_tx_header c) (c_tx_body c)
@@ -525,7 +584,7 @@ Section StepOk.
       destruct (find_conn id (w_conns w)) as [c|] eqn:Ef; [|split; [exact Hw|reflexivity]].
       destruct (c_in_http c).
       + pose proof (comms_disconnect_ok o w id Hw) as [G1 G2]. destruct (comms_disconnect o w id) as [w1 l1].
-        split; cbn [fst snd] in *; [exact G1|apply no_trunc_cons; [reflexivity|exact G2]].
+        split; cbn [fst snd] in *; [exact G1|apply no_bad_cons; [reflexivity|exact G2]].
       + destruct (c_connected c); split; try exact Hw; reflexivity.
     - (* server shutdown *)
       destruct (w_alive w); [|split; [exact Hw|reflexivity]].
@@ -534,17 +593,17 @@ Section StepOk.
           assert (HW : all_ok W) by exact Hw;
           pose proof (close_all_ok F (fun w' c' Hw' _ _ => comms_disconnect_ok o w' (c_id c') Hw') I W HW) as [G1 G2];
           destruct (close_all W I F) as [w2 l2] end.
-        split; cbn [fst snd] in *; [exact G1|apply no_trunc_cons; [reflexivity|exact G2]].
+        split; cbn [fst snd] in *; [exact G1|apply no_bad_cons; [reflexivity|exact G2]].
       + pose proof (server_close_ok w Hw) as [G1 G2]. destruct (server_close w) as [w1 l1].
-        split; cbn [fst snd] in *; [exact G1|apply no_trunc_cons; [reflexivity|exact G2]].
+        split; cbn [fst snd] in *; [exact G1|apply no_bad_cons; [reflexivity|exact G2]].
     - (* server close *)
       destruct (w_alive w); [|split; [exact Hw|reflexivity]].
       pose proof (server_close_ok w Hw) as [G1 G2]. destruct (server_close w) as [w1 l1].
-      split; cbn [fst snd] in *; [exact G1|apply no_trunc_cons; [reflexivity|exact G2]].
+      split; cbn [fst snd] in *; [exact G1|apply no_bad_cons; [reflexivity|exact G2]].
     - (* destroy *)
       destruct (w_alive w); [|split; [exact Hw|reflexivity]].
       pose proof (server_close_ok w Hw) as [G1 G2]. destruct (server_close w) as [w1 l1].
-      split; cbn [fst snd] in *; [exact G1|apply no_trunc_cons; [reflexivity|exact G2]].
+      split; cbn [fst snd] in *; [exact G1|apply no_bad_cons; [reflexivity|exact G2]].
     - split; [exact Hw|reflexivity].
   Qed.
 
@@ -554,8 +613,8 @@ Section StepOk.
     pose proof (step_ok w e Hw) as [G1 G2]. destruct (step recipe_of o w e) as [w1 l1]. cbn [fst snd] in G1, G2.
     specialize (IH w1 G1). destruct (run recipe_of o w1 t) as [w2 l2]. destruct IH as [I1 I2].
     split; cbn [fst snd] in *; [exact I1|].
-    apply no_trunc_cons; [reflexivity|]. apply no_trunc_app; [exact G2|].
-    apply no_trunc_app; [destruct (w_alive w1); reflexivity|exact I2].
+    apply no_bad_cons; [reflexivity|]. apply no_bad_app; [exact G2|].
+    apply no_bad_app; [destruct (w_alive w1); reflexivity|exact I2].
   Qed.
 End StepOk.
 
@@ -570,7 +629,28 @@ Proof. apply (run_ok recipe_of o evs w_init init_ok). Qed.
 Theorem never_truncated recipe_of o evs : o_tls o = false ->
   ~ In_truncated (snd (run recipe_of o w_init evs)).
 Proof.
-  intros _. pose proof (run_ok recipe_of o evs w_init init_ok) as [_ H]. unfold In_truncated, no_trunc in *. rewrite H. discriminate.
+  intros _. pose proof (run_ok recipe_of o evs w_init init_ok) as [_ H]. unfold In_truncated, no_bad in *. intros E.
+  apply existsb_exists in E. destruct E as [x [Hin Hx]].
+  assert (E : existsb is_bad (snd (run recipe_of o w_init evs)) = true) by (apply existsb_exists; exists x; split; [exact Hin | destruct x; try discriminate; reflexivity]).
+  rewrite H in E. discriminate.
+Qed.
+
+(* C03: in every history, every write that completes carries exactly the bytes that were issued: the buffers a pending
+   write points into are never rewritten (a send while a write is in flight is LUndefined, where the model stops) *)
+Theorem never_stale recipe_of o evs id : ~ In (LStale id) (snd (run recipe_of o w_init evs)).
+Proof.
+  pose proof (run_ok recipe_of o evs w_init init_ok) as [_ H]. unfold no_bad in H. intros Hin.
+  assert (E : existsb is_bad (snd (run recipe_of o w_init evs)) = true) by (apply existsb_exists; exists (LStale id); split; [exact Hin | reflexivity]).
+  rewrite H in E. discriminate.
+Qed.
+
+(* and in the state any history leaves behind, a pending write still denotes the bytes recorded when it was issued *)
+Theorem pending_write_intact recipe_of o evs c slots snap :
+  In c (w_conns (fst (run recipe_of o w_init evs))) -> c_write c = Some (slots, snap) ->
+  slots_bytes c slots = snap /\ c_transmitting c = true.
+Proof.
+  intros Hin Hw. pose proof (run_conn_ok recipe_of o evs) as H. rewrite Forall_forall in H. destruct (H c Hin) as (A & _ & B & _).
+  split; [rewrite slots_bytes_tx; exact (B _ _ Hw) | apply A; rewrite Hw; discriminate].
 Qed.
 
 (* C11: close() / destruction leaves no connection in either collection and nothing pending *)
